@@ -287,12 +287,13 @@ type worker struct {
 	rc   *nodecoll.Real
 }
 
-func newWorker(defs []samplerDef) *worker {
+func newWorker(defs []samplerDef, capacity int) *worker {
 	w := &worker{}
-	w.a = pipeline.New(pipeline.Options{Config: newConfig(defs), Self: addrA, Peers: []string{addrB}, MaxBatchSize: 1024,
+	w.a = pipeline.New(pipeline.Options{Config: newConfig(defs), Self: addrA, Peers: []string{addrB}, MaxBatchSize: capacity,
 		Collector: func(n *pipeline.Node) collect.Collector { w.rc = nodecoll.New(n); return w.rc }})
-	w.b = pipeline.New(pipeline.Options{Config: newConfig(defs), Self: addrB, Peers: []string{addrA}, MaxBatchSize: 1024})
+	w.b = pipeline.New(pipeline.Options{Config: newConfig(defs), Self: addrB, Peers: []string{addrA}, MaxBatchSize: capacity})
 	w.b.LinkPeer(addrA, w.a)
+	w.rc.OutgoingCap = capacity
 	return w
 }
 
@@ -562,10 +563,6 @@ func main() {
 	}
 	defs := samplers()
 	workers := 16
-	pool := make(chan *worker, workers)
-	for i := 0; i < workers; i++ {
-		pool <- newWorker(defs)
-	}
 
 	// ---- logical traces
 	// quick: 3-span traces over {200, "x"} and 2-span traces with the small (level 3) encoding lists
@@ -637,12 +634,21 @@ func main() {
 	jobsPerSampler := ev.Pick(r, 12, 24)
 	poolSize := make([]int, len(traces))
 	traceIDs := make([][]string, len(traces))
-	w0 := <-pool
-	next := uint64(1)
 	maxItems := 0
 	for ti := range traces {
 		poolSize[ti] = (nPres[ti] + jobsPerSampler - 1) / jobsPerSampler
 		maxItems += poolSize[ti]
+	}
+	// Workers. No batch of a transmission may reach MaxBatchSize (it would be dispatched asynchronously and
+	// reach the collector concurrently); the real send() blocks on a full outgoing queue (nobody drains it
+	// in handler mode).
+	pool := make(chan *worker, workers)
+	for i := 0; i < workers; i++ {
+		pool <- newWorker(defs, maxItems+16)
+	}
+	w0 := <-pool
+	next := uint64(1)
+	for ti := range traces {
 		for len(traceIDs[ti]) < poolSize[ti] {
 			id := fmt.Sprintf("%016x%016x", next*0x9e3779b97f4a7c15|1<<63, next*0xc2b2ae3d27d4eb4f)
 			next++
@@ -655,11 +661,6 @@ func main() {
 		}
 	}
 	pool <- w0
-	for i := 0; i < workers; i++ { // the real send() blocks on a full outgoing queue (nobody drains it in handler mode)
-		w := <-pool
-		w.rc.OutgoingCap = maxItems + 8
-		pool <- w
-	}
 
 	// wire bytes per (trace, ID slot, span, encoding index), rendered once
 	wires := make([][][][][]byte, len(traces))
